@@ -123,7 +123,8 @@ PROPS = {
         "extra": [r"sync/.*::class (objpid|refpid|cid)", r"sync/(release-only-own|self-deadlock|"
                   r"monitor-reentered|wait-inside-with)"],
         "steps": True,
-        "scenario_select": [r"steps/(store_object|tag_object|delete_object).*/(W-.*|2P-.*)"],
+        "scenario_select": [r"steps/(store_object|tag_object|delete_object|delete_if_invalid).*/(W-.*|2P-.*)",
+                            r"fs/directories-are-never-removed"],
         "derived": "locks-object",
     },
     "C08": {
@@ -173,11 +174,11 @@ PROPS = {
     "C12": {
         "fns": fns(PUBLIC_META, r"post/locks|C-check-then-act/.*|loop-foreach/locks-restored"),
         "extra": [r"sync/acquired-identifier-is-free::class doc",
-                  r"sync/release-only-own"],
+                  r"sync/release-only-own", r"fs/directories-are-never-removed"],
         "lemmas": [],
         "steps": True,
         "scenario_select": [r"steps/(store_metadata|delete_metadata).*/(W-.*|2P-.*)",
-                            r".*/C-check-then-act/.*"],
+                            r".*/C-check-then-act/.*", r"fs/directories-are-never-removed"],
         "derived": "locks-metadata",
     },
     "C14": {
@@ -309,7 +310,8 @@ def _jobs_for(prop, all_fn_jobs, tier="quick"):
     out += [("special", s, tier) for s in spec.get("special", [])]
     if spec.get("steps"):
         from props import scenarios
-        out += [("steps", n) for n in scenarios.SCENARIOS]
+        out += [("steps", n) for n, (_, _, pr) in scenarios.SCENARIOS.items()
+                if "C09" in pr or "C10" in pr or "C07" in pr]
     if spec.get("fault"):
         from props import scenarios
         names = list(scenarios.SCENARIOS) if tier == "thorough" else QUICK_FAULT
